@@ -1,7 +1,442 @@
-//! C14 — not implemented yet.
-use vcore::Ctx;
+//! C14 — "Combinational loop detection is exact".
+//!
+//! Generated-input search: designs of the dependency dialect (dgen.rs) are
+//! rendered to Veryl, analysed by the real front end (front.rs: the passes
+//! `veryl check` runs), and the `CombinationalLoop` verdict of every module is
+//! compared with three graphs computed from the harness' own IR (graph.rs):
+//!
+//!   fine   ⊆ doc ⊆ coarse            (as "has a cycle" predicates)
+//!
+//!   R2  fine has a cycle                  ⇒ a loop is reported   (else *missed loop*)
+//!   R3  a loop is reported                ⇒ doc has a cycle      (else *false loop*)
+//!   R1  a loop is reported                ⇒ coarse has a cycle   (else *false loop
+//!                                           beyond any granularity*)
+//!
+//! `doc` is `fine` coarsened exactly where the checker documents that it is
+//! coarser than bit level (see `DOCUMENTED_COARSE`); where `fine` and `doc`
+//! agree the module is *decided exactly*, otherwise either verdict is accepted
+//! and counted.
 
-pub fn run(_ctx: &Ctx) {
-    println!("INCONCLUSIVE property=C14: check not implemented");
-    std::process::exit(2);
+use crate::dgen::{self, Cfg};
+use crate::front;
+use crate::graph::{self, Sem};
+use crate::ir::*;
+use serde_json::Value;
+use vcore::{CaseCfg, Ctx, Draw, Outcome, hash_str, json};
+
+/// Constructs for which the checker promises bit-level precision (so the
+/// exact direction R3 is asserted at bit level), each with the place in /repo
+/// that makes the promise.
+pub const BIT_PRECISE: &[(&str, &str)] = &[
+    ("bit / part selects, both sides", "region.rs NodeKey doc: \"bit-disjoint reads/writes form disjoint nodes\"; test comb_loop_through_disjoint_bits, procedural_tests …disjoint_partial_write_self_reference…"),
+    ("array elements with constant index", "function_tests …static_array_elements_remain_distinct_regions; procedural_tests …forward_array_chain…"),
+    ("packed struct members", "function_tests …static_struct_members_remain_distinct_regions"),
+    ("concatenation on the right and on the left", "positional_tests preserves_concatenated_lhs_bits…, …concatenation_permutation_preserves_structural_feedback"),
+    ("bitwise operators ~ & | ^ ~^", "positional_tests …same_width_bitwise_operators_preserve_positional_provenance"),
+    ("constant shifts", "positional_tests preserves_constant_shift_positions…, preserves_local_right_shift_positions…"),
+    ("if ? : data inputs (condition -> every bit)", "positional_tests preserves_vector_ternary_positions…"),
+    ("statement order in always_comb, branch merges", "ssa.rs module doc \"statement-ordered SSA\"; procedural_tests statement_order_and_observer_semantics…, …procedural_overwrite_within_always_comb_is_not_a_loop…"),
+    ("if conditions -> every bit assigned under them", "procedural_tests if_assignment_to_array_is_feed_forward_condition_driven_loop_is_reported"),
+    ("functions: per-call inlining, return bits, locals in statement order", "function_tests preserves_vector_function_return_bits…, …function_local_partial_writes_are_ordered, …function_bit_select_must_not_taint_a_disjoint_actual_bit"),
+    ("always_ff registers break paths", "procedural_tests …ff_broken_feedback…; module_tests …module_instance_with_ff_driven_output…"),
+    ("parent side of an instance connection (actual reads, destination bits)", "module_tests …a_static_slice_connection_does_not_contaminate_its_sibling_bit"),
+];
+
+/// Where the checker documents that it is coarser than bit level: `doc`
+/// applies exactly these coarsenings and R3 is asserted against `doc`.
+pub const DOCUMENTED_COARSE: &[(&str, &str)] = &[
+    ("module instance boundary: input port -> output port, all bits of the actual -> all destination bits", "comb_loop_detect.rs `ModuleCombSummary`: \"Port-level only\"; ignored tests \"false positive; module feedthrough and instance mapping\" (module_tests)"),
+    ("a function formal that the body never reads still makes the result depend on its actual", "ignored test \"false positive; unused function actual is not a return dependency\" (function_tests)"),
+    ("arithmetic / comparison / reduction / logical operators: every operand bit -> every result bit", "sparse_tests …four_state_arithmetic_depends_on_every_operand_bit, …reduction_operators_remain_dependent_on_every_operand_bit (this is also what `fine` does: 4-state x-propagation)"),
+];
+
+#[derive(Clone, Copy, PartialEq)]
+enum Mode {
+    Main,
+    Defects,
+}
+
+fn expr_has(e: &Expr, pred: &dyn Fn(&Expr) -> bool) -> bool {
+    if pred(e) {
+        return true;
+    }
+    match e {
+        Expr::Ref(_) | Expr::Local(..) | Expr::Const(..) => false,
+        Expr::Concat(v) | Expr::Call(_, v) => v.iter().any(|x| expr_has(x, pred)),
+        Expr::Not(a) | Expr::Neg(a) | Expr::Red(_, a) | Expr::Shl(a, _) | Expr::Shr(a, _) => expr_has(a, pred),
+        Expr::Bit(_, a, b) | Expr::Arith(_, a, b) | Expr::ArithCtx(_, a, b, _) | Expr::Cmp(_, a, b) => {
+            expr_has(a, pred) || expr_has(b, pred)
+        }
+        Expr::Mux(c, a, b) => expr_has(c, pred) || expr_has(a, pred) || expr_has(b, pred),
+    }
+}
+
+fn stmts_have(ss: &[Stmt], pred: &dyn Fn(&Expr) -> bool) -> bool {
+    ss.iter().any(|s| match s {
+        Stmt::Assign(_, e) => expr_has(e, pred),
+        Stmt::If(c, t, f) => expr_has(c, pred) || stmts_have(t, pred) || stmts_have(f, pred),
+    })
+}
+
+fn item_has(it: &Item, pred: &dyn Fn(&Expr) -> bool) -> bool {
+    match it {
+        Item::Assign(_, e) | Item::Ff(_, e) => expr_has(e, pred),
+        Item::Comb(ss) => stmts_have(ss, pred),
+        Item::Inst { ins, .. } => ins.iter().any(|e| expr_has(e, pred)),
+    }
+}
+
+/// always_comb with sequential reassignment: some bit is assigned more than
+/// once and the block reads one of its own bits in between / afterwards
+fn comb_seq_reassign(ss: &[Stmt]) -> bool {
+    fn walk(ss: &[Stmt], seen: &mut std::collections::BTreeSet<(SigId, usize)>, twice: &mut bool, own_read: &mut bool) {
+        for s in ss {
+            match s {
+                Stmt::Assign(ts, e) => {
+                    if expr_has(e, &|x| matches!(x, Expr::Ref(p) if (0..p.w).any(|i| seen.contains(&(p.sig, p.lo + i))))) {
+                        *own_read = true;
+                    }
+                    for t in ts {
+                        if let Target::Sig(p) = t {
+                            for i in 0..p.w {
+                                if !seen.insert((p.sig, p.lo + i)) {
+                                    *twice = true;
+                                }
+                            }
+                        }
+                    }
+                }
+                Stmt::If(c, t, f) => {
+                    if expr_has(c, &|x| matches!(x, Expr::Ref(p) if (0..p.w).any(|i| seen.contains(&(p.sig, p.lo + i))))) {
+                        *own_read = true;
+                    }
+                    walk(t, seen, twice, own_read);
+                    walk(f, seen, twice, own_read);
+                }
+            }
+        }
+    }
+    let mut seen = Default::default();
+    let (mut twice, mut own_read) = (false, false);
+    walk(ss, &mut seen, &mut twice, &mut own_read);
+    twice && own_read
+}
+
+fn node_name(m: &Module, g: &graph::ModGraph, n: graph::Node) -> String {
+    let n = n as usize;
+    let s = (0..m.sigs.len()).rev().find(|s| g.base[*s] <= n).unwrap();
+    format!("{}#{}", m.sigs[s].name, n - g.base[s])
+}
+
+fn witness(m: &Module, g: &graph::ModGraph) -> String {
+    let plain: Vec<(graph::Node, graph::Node)> = g.edges.iter().map(|(s, t, _)| (*s, *t)).collect();
+    let sccs = graph::cyclic_sccs(g.n, &plain);
+    sccs.iter()
+        .take(2)
+        .map(|c| {
+            let mut v: Vec<String> = c.iter().map(|n| node_name(m, g, *n)).collect();
+            v.sort();
+            format!("{{{}}}", v.join(" "))
+        })
+        .collect::<Vec<_>>()
+        .join(" ; ")
+}
+
+struct Verdicts {
+    fine: Vec<graph::CycleInfo>,
+    doc: Vec<bool>,
+    coarse: Vec<bool>,
+}
+
+fn verdicts(d: &Design, sem_extra: Sem) -> (Verdicts, Vec<graph::ModGraph>) {
+    let gf = graph::build(d, sem_extra);
+    let gd = graph::build(d, Sem { port_level: true, flat_under_op: true, ..sem_extra });
+    let gc = graph::coarse(d);
+    let fine = d.modules.iter().zip(&gf).map(|(m, g)| graph::cycle_info(m, g)).collect();
+    let doc = d.modules.iter().zip(&gd).map(|(m, g)| graph::cycle_info(m, g).cyclic).collect();
+    let coarse = gc.iter().map(|(n, e)| !graph::cyclic_sccs(*n, e).is_empty()).collect();
+    (Verdicts { fine, doc, coarse }, gf)
+}
+
+enum Judged {
+    Skip(String),
+    Fail { sig: String, msg: String, module: String },
+    Ok { v: Verdicts, reported: Vec<bool>, text: String },
+}
+
+/// Render, analyse with the real front end, compare with the graphs.
+fn judge(design: &Design, mode: Mode) -> Judged {
+    let (text, spans) = render(design);
+    let Some(diags) = front::analyze(&text) else {
+        return Judged::Skip("generated text does not parse (harness)".into());
+    };
+    // acceptance: the loop verdict must be the only diagnostic
+    if let Some(o) = diags.iter().find(|x| x.loop_at.is_none()) {
+        return Judged::Skip(format!("not accepted: {} {}", if o.is_error { "error" } else { "warning" }, o.code));
+    }
+    let nm = design.modules.len();
+    let mut reported = vec![false; nm];
+    for x in &diags {
+        let at = x.loop_at.unwrap();
+        match spans.iter().position(|(a, b)| *a <= at && at < *b) {
+            Some(i) => reported[i] = true,
+            None => {
+                return Judged::Fail {
+                    sig: "harness/loop-location-outside-modules".into(),
+                    msg: format!("loop diagnostic at byte {at} is in no module"),
+                    module: String::new(),
+                };
+            }
+        }
+    }
+    let (v, gf) = verdicts(design, Sem::default());
+    for i in 0..nm {
+        let m = &design.modules[i];
+        let (fine, doc, coarse, rep) = (v.fine[i].cyclic, v.doc[i], v.coarse[i], reported[i]);
+        let fail = |sig: &str, what: &str, extra: String| Judged::Fail {
+            sig: sig.to_string(),
+            msg: format!("module {}: {what}\nreported={rep} fine_cycle={fine} doc_cycle={doc} variable_cycle={coarse}\n{extra}", m.name),
+            module: m.name.clone(),
+        };
+        if fine && !rep {
+            let sig = attribute(design, i, "missed-loop");
+            return fail(
+                &sig,
+                "a true bit-level cycle is not reported",
+                format!("cycle (bit nodes of one SCC): {}", witness(m, &gf[i])),
+            );
+        }
+        if rep && !coarse {
+            return fail(&attribute(design, i, "false-loop/no-variable-level-cycle"), "a loop is reported although not even the variable-level graph has a cycle", String::new());
+        }
+        if rep && !doc {
+            return fail(
+                &attribute(design, i, "false-loop/bit-precise-constructs-only"),
+                "a loop is reported although the bit-level graph (coarsened where the checker documents it) has no cycle",
+                String::new(),
+            );
+        }
+    }
+    Judged::Ok { v, reported, text }
+}
+
+/// Root-cause attribution of a wrong verdict on module `i` to a listed
+/// finding; the raw signature if none explains it.
+fn attribute(design: &Design, i: usize, raw: &str) -> String {
+    if raw == "missed-loop" {
+        // the cycle only exists under the correct semantics of a construct the
+        // checker is known to model wrongly
+        let (vn, _) = verdicts(design, Sem { neg_bitwise: true, ..Sem::default() });
+        if !vn.fine[i].cyclic {
+            return "missed-loop/unary-minus-treated-bitwise".into();
+        }
+        let (vc, _) = verdicts(design, Sem { narrow_zero: true, ..Sem::default() });
+        if !vc.fine[i].cyclic {
+            return "missed-loop/carry-into-context-width-dropped".into();
+        }
+    }
+    // the verdict becomes right once no statement reads bits it also writes
+    let (d2, n) = crate::desugar::desugar_self_reads(design);
+    if n > 0 && matches!(judge_isolated(&d2, Mode::Main), Judged::Ok { .. }) {
+        return "wrong-verdict/statement-reads-bits-it-writes".into();
+    }
+    raw.to_string()
+}
+
+/// `judge` on its own thread (the analyzer state is thread-local).
+fn judge_isolated(design: &Design, mode: Mode) -> Judged {
+    std::thread::scope(|s| {
+        std::thread::Builder::new()
+            .stack_size(8 << 20)
+            .spawn_scoped(s, || judge(design, mode))
+            .expect("spawn")
+            .join()
+            .unwrap_or_else(|_| Judged::Fail { sig: "panic:front-end".into(), msg: "front end panicked".into(), module: String::new() })
+    })
+}
+
+fn case(d: &mut Draw, mode: Mode, big: bool, known: &[String]) -> Outcome {
+    let back_budget = d.weighted(&[3, 4, 2, 1]);
+    let cfg = Cfg {
+        back_budget,
+        defect_neg: false,
+        defect_narrow: false,
+        defect_selfread: false,
+        big,
+    };
+    let mut cfg = cfg;
+    if mode == Mode::Defects {
+        // one listed defect shape per case, so that a wrong verdict has one cause
+        match d.below(3) {
+            0 => cfg.defect_selfread = true,
+            1 => cfg.defect_neg = true,
+            _ => cfg.defect_narrow = true,
+        }
+    }
+    let (design, info) = dgen::gen_design(d, cfg);
+    let nm = design.modules.len();
+    let (v, reported, text) = match judge(&design, mode) {
+        Judged::Skip(r) => return Outcome::skip(r),
+        Judged::Ok { v, reported, text } => (v, reported, text),
+        Judged::Fail { sig, msg, module } => {
+            let (text, _) = render(&design);
+            if known.contains(&sig) || sig.starts_with("harness/") {
+                return Outcome::fail(sig, format!("{msg}\n--- design ---\n{text}"), json!({"text": text, "module": module}));
+            }
+            // minimise on the IR: same root-cause signature required
+            let small = crate::shrink::shrink(
+                &design,
+                &|c| matches!(judge_isolated(c, mode), Judged::Fail { sig: s2, .. } if s2 == sig),
+                400,
+            );
+            let (stext, _) = render(&small);
+            let smsg = match judge_isolated(&small, mode) {
+                Judged::Fail { msg, .. } => msg,
+                _ => msg.clone(),
+            };
+            return Outcome::fail(
+                sig,
+                format!("{smsg}\n--- minimised design ---\n{stext}\n--- original: {msg}\n{text}"),
+                json!({"text": stext, "original": text, "module": module}),
+            );
+        }
+    };
+    let mut classes: Vec<String> = Vec::new();
+    // ---- classification
+    let any = |f: &dyn Fn(usize) -> bool| (0..nm).any(f);
+    let true_loop = any(&|i| v.fine[i].cyclic);
+    let multi = any(&|i| v.fine[i].max_items >= 2);
+    let near = any(&|i| v.coarse[i] && !v.fine[i].cyclic);
+    let either = any(&|i| v.doc[i] != v.fine[i].cyclic);
+    if true_loop {
+        classes.push("loop:true".into());
+        classes.push(if multi { "loop:through>=2-processes" } else { "loop:single-process" }.into());
+    }
+    if near {
+        classes.push("near-miss(variable cycle, no bit cycle)".into());
+    }
+    if !true_loop && !near {
+        classes.push("acyclic-at-every-granularity".into());
+    }
+    if any(&|i| v.fine[i].through_inst) {
+        classes.push("loop:through-instance".into());
+    }
+    let call = |e: &Expr| matches!(e, Expr::Call(..));
+    if any(&|i| v.fine[i].items.iter().any(|ix| item_has(&design.modules[i].items[*ix], &call))) {
+        classes.push("loop:through-function".into());
+    }
+    if any(&|i| v.coarse[i] && !v.fine[i].cyclic && design.modules[i].items.iter().any(|it| matches!(it, Item::Inst { .. }))) {
+        classes.push("near-miss:module-with-instance".into());
+    }
+    if any(&|i| v.coarse[i] && !v.fine[i].cyclic && design.modules[i].items.iter().any(|it| item_has(it, &call))) {
+        classes.push("near-miss:module-with-function-call".into());
+    }
+    let seq = design.modules.iter().any(|m| m.items.iter().any(|it| matches!(it, Item::Comb(ss) if comb_seq_reassign(ss))));
+    if seq {
+        classes.push("always_comb:sequential-reassignment".into());
+    }
+    if any(&|i| v.coarse[i] && !v.fine[i].cyclic && design.modules[i].items.iter().any(|it| matches!(it, Item::Comb(ss) if comb_seq_reassign(ss)))) {
+        classes.push("near-miss:module-with-sequential-reassignment".into());
+    }
+    if design.modules.iter().any(|m| m.items.iter().any(|it| matches!(it, Item::Comb(ss) if ss.iter().any(|s| matches!(s, Stmt::If(..)))))) {
+        classes.push("always_comb:branches".into());
+    }
+    if design.modules.iter().any(|m| m.sigs.iter().any(|s| matches!(s.shape, Shape::Struct(_)))) {
+        classes.push("struct".into());
+    }
+    if design.modules.iter().any(|m| m.sigs.iter().any(|s| matches!(s.shape, Shape::Arr { .. }))) {
+        classes.push("array".into());
+    }
+    if design.modules.iter().any(|m| !m.funcs.is_empty()) {
+        classes.push("function".into());
+    }
+    if design.modules.iter().any(|m| m.items.iter().any(|it| matches!(it, Item::Ff(..)))) {
+        classes.push("always_ff".into());
+    }
+    if design.modules.iter().any(|m| m.items.iter().any(|it| matches!(it, Item::Assign(ps, _) if ps.len() > 1)))
+        || design.modules.iter().any(|m| m.items.iter().any(|it| matches!(it, Item::Comb(ss) if ss.iter().any(|s| matches!(s, Stmt::Assign(ts, _) if ts.len() > 1)))))
+    {
+        classes.push("lhs-concatenation".into());
+    }
+    // hierarchy depth
+    let mut depth = vec![1usize; nm];
+    for i in 0..nm {
+        for it in &design.modules[i].items {
+            if let Item::Inst { child, .. } = it {
+                depth[i] = depth[i].max(depth[*child] + 1);
+            }
+        }
+    }
+    classes.push(format!("hierarchy-levels:{}", depth.iter().max().unwrap()));
+    classes.push(format!("back-reads:{}", info.back_reads.min(3)));
+    if info.back_in_inst > 0 {
+        classes.push("back-read:in-instance-actual".into());
+    }
+    if info.back_in_func > 0 {
+        classes.push("back-read:captured-by-function".into());
+    }
+    if mode == Mode::Defects {
+        if info.neg_used > 0 {
+            classes.push("defect-shape:unary-minus".into());
+        }
+        if info.narrow_used > 0 {
+            classes.push("defect-shape:narrow-arithmetic-in-wide-context".into());
+        }
+    }
+    classes.push(if reported.iter().any(|x| *x) { "verdict:loop-reported" } else { "verdict:no-loop" }.into());
+    if either {
+        classes.push("decided:either-verdict-accepted(documented coarseness)".into());
+    } else {
+        classes.push("decided:exactly".into());
+    }
+    let nontrivial = near || multi;
+    Outcome::pass(hash_str(&text), nontrivial, classes, text)
+}
+
+/// Hand-written reproducers of listed findings: payload `{text, expect_loop, signature}`.
+fn reproducer(p: &Value) -> Outcome {
+    let text = p.get("text").and_then(|x| x.as_str()).unwrap_or_default().to_string();
+    let expect = p.get("expect_loop").and_then(|x| x.as_bool()).unwrap_or(false);
+    let sig = p.get("signature").and_then(|x| x.as_str()).unwrap_or("reproducer").to_string();
+    // fresh thread: analyzer state is thread-local
+    let t2 = text.clone();
+    let r = std::thread::scope(|s| s.spawn(move || front::analyze(&t2)).join());
+    let diags = match r {
+        Ok(Some(d)) => d,
+        Ok(None) => return Outcome::skip("reproducer does not parse"),
+        Err(_) => return Outcome::fail("panic:reproducer", "front end panicked on a reproducer", json!({"text": text})),
+    };
+    if let Some(o) = diags.iter().find(|x| x.loop_at.is_none()) {
+        return Outcome::skip(format!("reproducer not accepted: {}", o.code));
+    }
+    let reported = !diags.is_empty();
+    if reported != expect {
+        return Outcome::fail(
+            sig,
+            format!("expected loop={expect}, checker reported loop={reported}\n{text}"),
+            json!({"text": text, "expect_loop": expect}),
+        );
+    }
+    Outcome::pass(hash_str(&text), true, vec!["reproducer".into()], text)
+}
+
+pub fn run(ctx: &Ctx) {
+    let big = !ctx.is_quick();
+    let n_main = ctx.scale(4000, 160_000);
+    let n_def = ctx.scale(500, 10_000);
+    let known: Vec<String> = ctx.findings().iter().filter(|f| f.status == "known").map(|f| f.key.clone()).collect();
+    ctx.run("main", CaseCfg::cases(n_main).choices(8000).shrink_iters(0).timeout_s(1200), |d: &mut Draw| case(d, Mode::Main, big, &known));
+    ctx.run("defect-shapes", CaseCfg::cases(n_def).choices(8000).shrink_iters(0).timeout_s(1200), |d: &mut Draw| case(d, Mode::Defects, big, &known));
+    ctx.run_payloads("reproducers", reproducer);
+
+    ctx.note("bit_precise_constructs", json!(BIT_PRECISE.iter().map(|(a, b)| json!({"construct": a, "promise": b})).collect::<Vec<_>>()));
+    ctx.note("documented_coarseness", json!(DOCUMENTED_COARSE.iter().map(|(a, b)| json!({"construct": a, "source": b})).collect::<Vec<_>>()));
+    ctx.assume("the loop verdict is read from the in-process front end running the same passes as `veryl check` (parse, pass1, post_pass1, pass2, post_pass2); each finding was reproduced once with the real `veryl check` binary");
+    ctx.assume("a true cycle is a cycle of the harness' bit-level graph `fine`: bit-to-bit for copies/selects/concatenations/bitwise operators/constant shifts/mux data, every-operand-bit -> every-result-bit for arithmetic, comparison, reduction and logical operators (4-state x-propagation; the checker's tests say the same), conditions -> every bit assigned under them, statement order inside always_comb and functions, registers break paths");
+    ctx.assume("the exact direction (reported => cycle) is asserted against `fine` coarsened only where the checker documents coarseness: instance boundaries are port level, an unused function formal counts as a dependency; cases where that graph and `fine` disagree accept either verdict and are counted in the class histogram");
+    ctx.assume("not generated: SystemVerilog black boxes, inout ports, recursive functions (the documented opaque constructs), dynamic indices, unpacked-array ports, interfaces, generics, case/for statements, function output arguments, signed arithmetic, width-mismatched operands (except in the defect-shape sub)");
+    ctx.finish(
+        "exploration",
+        "designs of 1-3 modules are drawn from a choice sequence (processes -> chunks -> packed into vectors/arrays/structs; reads of lower levels plus a budget of deliberate back reads); non-trivial = some module has a variable-level cycle that is not a bit-level cycle (near miss), or a true bit-level cycle whose SCC is built from >= 2 processes; distinct by hash of the Veryl text",
+    );
 }
